@@ -51,15 +51,28 @@ Theorem C05_tree_history_lookup : forall ops t et kt raw kids k,
 Proof. exact dom_get_history. Qed.
 Print Assumptions C05_tree_history_lookup.
 
-(* PARTIAL (named so): the statement `marshal (fold tree_step ops (load (encode v))) = encode (fold ast_step ops v)` with the
-   value-level edits ast_step of ThriftDom.v is NOT proved; C05_tree_history_marshal gives the encoding of the value the
-   edited tree denotes (val_of_dom), what is missing is the commutation val_of_dom (dom_step d o) = ast_step (val_of_dom d) o,
-   which only holds for histories that never re-set a cleared key (the code revives the slot in place) — the
-   correspondence check compares the implementation with dom_step / marshal directly. *)
-Theorem C05_tree_history_ast_partial : forall rec v, wf v = true ->
-  val_of_dom (fold_left dom_step [] (dom_of rec false v)) = Some (fold_left ast_step [] v).
-Proof. intros rec v Hwf. exact (proj1 (dom_of_sound rec v Hwf)). Qed.
-Print Assumptions C05_tree_history_ast_partial.
+(* ---- the target statement marshal (fold tree_step ops (load (encode v))) = encode (fold ast_step ops v) ----
+   PARTIAL (named so): proved for STRUCT roots and histories of sets by field id (replace an existing field, append an
+   absent one) and lookups, for every wf struct value, recursive or lazy load.  What is missing: (a) histories containing
+   a clear FOLLOWED by a set of the same key commute with ast_step only up to the position of the field (the code revives
+   the cleared slot in place, ast_step appends) — one clear step is C05_struct_step_ast; (b) the same commutation for
+   map and list roots (same argument, key typing and index bookkeeping not done).  For ALL histories and ALL container
+   kinds C05_tree_history_marshal gives marshal = encode (val_of_dom (edited tree)), and the correspondence check
+   compares the implementation with dom_step / marshal directly. *)
+Theorem C05_tree_history_ast_struct_partial : forall rec fs ops,
+  wf (VStruct fs) = true -> fs <> [] -> Forall struct_set_op ops ->
+  marshal (tree_of_dom (fold_left dom_step ops (dom_of rec false (VStruct fs)))) =
+  Some (encode (fold_left ast_step ops (VStruct fs))).
+Proof. exact struct_history_marshal_ast. Qed.
+Print Assumptions C05_tree_history_ast_struct_partial.
+
+(* one edit (set OR clear by field id) of a struct node without cleared slots is exactly the value-level edit *)
+Theorem C05_struct_step_ast : forall et kt raw kids o,
+  kids <> [] -> clean_struct kids ->
+  (match o with OSet (KField id) _ | OClear (KField id) => 0 <= id < 65536 | OGet _ => True | _ => False end) ->
+  val_of_dom (dom_step (DNode T_STRUCT et kt raw kids) o) = Some (ast_step (VStruct (fields_of kids)) o).
+Proof. exact struct_step_ast. Qed.
+Print Assumptions C05_struct_step_ast.
 
 (* ---- storage refinement, by id: direct index below the threshold 256, sequential above, holes allowed ---- *)
 Theorem C05_byid_refines : forall (A : Type) (fs : list (Z * A)) (id : Z),
@@ -106,6 +119,11 @@ Example ex_hist_value : val_of_dom (fold_left dom_step ex_ops (dom_of true false
   Some (VStruct [(1, VI32 9); (255, VI16 3); (256, ex_map); (1000, VList T_I64 [VI64 1; VI64 (-1)]); (3, VSet T_I32 []); (7, VBool 1)]).
 Proof. vm_compute. reflexivity. Qed.
 Example ex_hist_lookup : dom_get (fold_left dom_step ex_ops (dom_of true false ex_val)) (KField 255) = Some (DLeaf (VI16 3)).
+Proof. vm_compute. reflexivity. Qed.
+Example ex_hist_ast_ops : Forall struct_set_op [OSet (KField 1) (VI32 9); OSet (KField 7) (VBool 1); OGet (KField 3)].
+Proof. repeat constructor; cbn; lia. Qed.
+Example ex_hist_ast : marshal (tree_of_dom (fold_left dom_step [OSet (KField 1) (VI32 9); OSet (KField 7) (VBool 1); OGet (KField 3)] (dom_of false false ex_val))) =
+  Some (encode (fold_left ast_step [OSet (KField 1) (VI32 9); OSet (KField 7) (VBool 1); OGet (KField 3)] ex_val)).
 Proof. vm_compute. reflexivity. Qed.
 (* a map history with a key of the map's key type *)
 Example ex_hist_map_ok : hist_ok (dom_of true false ex_map) [OSet (KStr [113]) (VI32 1); OClear (KStr [107; 49])].
